@@ -182,7 +182,7 @@ def check_bad(case: t.Any, ctx: Ctx) -> None:
 
 @st.composite
 def class_cases(draw) -> t.Any:
-    fields = draw(st.lists(names.filter(lambda ws: not keyword.iskeyword('_'.join(ws))), min_size=1, max_size=4,
+    fields = draw(st.lists(names.filter(lambda ws: not keyword.iskeyword('_'.join(ws)) and '_'.join(ws) not in ('cls', 'self')), min_size=1, max_size=4,
                           unique_by=lambda ws: '_'.join(ws)))
     style = draw(st.sampled_from(STYLES))
     mode = draw(st.sampled_from(['rename', 'in_out', 'dict']))
